@@ -12,7 +12,7 @@ pub const KNOWN_TIMEOUT_KINDS: &[i64] = &[];
 
 fn include_known() -> bool { std::env::var("C08_INCLUDE_KNOWN").is_ok() }
 fn out_code(o: &Args) -> i64 { o.get(0).and_then(|g| g.get(0)).map(|x| i64::try_from(x).unwrap_or(-9)).unwrap_or(-9) }
-fn out_loc(o: &Args) -> String { o.get(2).map(|g| String::from_utf8_lossy(&to_u8s(g)).to_string()).unwrap_or_default() }
+fn out_loc(o: &Args) -> String { o.get(2).map(|g| g.iter().map(|x| u8::try_from(x).map(|b| b as char).unwrap_or('?')).collect::<String>()).unwrap_or_default() }
 fn code_name(c: i64) -> &'static str { match c { 0 => "ok", 1 => "err", 2 => "PANIC", 3 => "TIMEOUT", 4 => "ABORT", _ => "?" } }
 fn is_known(kind: i64, o: &Args) -> bool {
     match out_code(o) { PANIC => KNOWN_CLASSES.contains(&out_loc(o).as_str()), TIMEOUT => KNOWN_TIMEOUT_KINDS.contains(&kind), _ => false }
@@ -66,7 +66,7 @@ fn slot_mutants(r: &mut Rng, b: &[u8], slots: &[TSlot], n: usize, footer: Option
             if let Some((_, flen)) = footer { let nl = (flen + o.len()).saturating_sub(b.len()); set_pq_footer_len(&mut o, nl) }
             out.push((o, format!("t{}overlong{}", s.what, e.len())));
         } else {
-            out.push(m_thrift_slot(b, &s, r, footer, footer.is_some() && !r.chance(1, 5)));
+            let fix = footer.is_some() && !r.chance(1, 5); out.push(m_thrift_slot(b, &s, r, footer, fix));
         }
     }
 }
@@ -228,7 +228,7 @@ pub fn generate(tier: &str, r: &mut Rng, emit: &mut dyn FnMut(Case)) {
             emit(Case::new("c08.outcome", in_args(i), &[], format!("known:{}", out_loc(o))));
             continue;
         }
-        emit(Case::new("c08.outcome", in_args(i), &["c08.outcome.post1"], format!("{} {} {}", KIND_NAMES[i.kind as usize], mtag, code_name(code))));
+        emit(Case::new("c08.outcome", in_args(i), &["c08.outcome.post"], format!("{} {} {}", KIND_NAMES[i.kind as usize], mtag, code_name(code))));
     }
     for (j, (op, a)) in col_jobs.into_iter().enumerate() {
         let _ = op;
